@@ -26,6 +26,14 @@ P = {
    "All configuration trees over 4 (thorough 5) dotted levels with values present/absent and two distinct values per level, side nodes, 5 configuration sources (Set, YAML, YAML+default, environment, defaults), all lookup paths incl. siblings and look-alikes, for the 5 hierarchical accessors, compared with an independent longest-prefix reference. Configurations are the quantifier; the bounded tree space is enumerated completely.",
    "Trusted: viper as configuration store; values vouch treats as 'no value' (0, empty) are outside the alphabet.",
    SEQ, "DESIGN.md §6 C19"),
+ "C12": ("model_checking",
+   "The real blockrelay service (real constructor, REST daemon stubbed) with a scripted configuration source: every sequence of 2 (thorough 3) fetch outcomes over 7 kinds x every set of 1-2 concurrent requests (lookups, auctions, registration round), all interleavings within a preemption bound (quick 1, thorough 2) under an RWMutex model with Go's writer preference; every call must return, nothing may stay blocked, and lookups must answer from the last good document. Fault sequences x schedules are the quantifier.",
+   "Trusted: RWMutex writer-preference model; stand-in relay client / bid strategy / signer return immediately; two validators; unresolvable settings produced by a zero-pubkey proposer entry.",
+   MC + " (preemption-bounded)", "DESIGN.md §6 C12"),
+ "C06": ("model_checking",
+   "All ten signing entry points of the real signer service with real BLS keys (local, remote ordinary, remote distributed with 2-of-3 threshold recovery): slots on both sides of an epoch and a fork boundary x message field values x all account-kind batches up to length 3 (thorough 4); every returned signature is BLS-verified against an independently merkleised signing root and independently computed domain. Inputs are enumerated completely within the alphabet.",
+   "Trusted: herumi BLS, go-eth2-client HashTreeRoot of spec types, the stand-in accounts modelled on the dirk client; value domains are small alphabets, not all 2^256 roots.",
+   SEQ, "DESIGN.md §6 C06"),
 }
 checks = []
 for pid in ids:
